@@ -43,7 +43,7 @@ func genLevelValue(t *rapid.T, level string) string {
 
 // TestC18: environment and job variables reach exactly the right task commands.
 func TestC18(t *testing.T) {
-	col := ev.Get("C18", "env", "1-3 pipelines (concurrency 1 or 3, so that jobs also wait while later requests arrive) x 1-3 tasks with real processes; some tasks have environment variables named like a job variable or like the reserved job-identity variable (they are environment only); the jobs of a case are scheduled by ScheduleAsync or, in half of the cases, over the HTTP API; each of 6 variable names is assigned to a generated subset of {prunner process, pipeline, task} with distinct values containing spaces, quotes, newlines, $, =, backticks, non-ASCII and the empty string; 2-5 jobs run concurrently, each with its own variables (strings - also with & < > \" + $ ; and URL-like values -, numbers, booleans, nested maps); every task runs 'vhelper dumpenv' (a real child process), 'vhelper args \"${NAME-<unset>}\"...' (interpreter expansion) and 'vhelper args {{ .var }}...' (template); oracle per name: child value = task value if defined, else pipeline value, else process value, else unset, byte for byte; TASK_NAME = task name; the rendered script shows exactly its own job's variables; a job scheduled with the reserved variable name runs nothing, ends canceled with an error and leaves the job it named unchanged; non-trivial = a name defined at >=2 levels with a shell-special value and >=2 jobs overlapping; distinct by assignment")
+	col := ev.Get("C18", "env", "1-3 pipelines (concurrency 1 or 3, so that jobs also wait while later requests arrive) x 1-3 tasks with real processes; some tasks have environment variables named like a job variable or like the reserved job-identity variable (they are environment only); in a third of the cases the pipeline-level values are edited by a reload right after the jobs were accepted, while some still wait (they keep the values of their own definition); the jobs of a case are scheduled by ScheduleAsync or, in half of the cases, over the HTTP API; each of 6 variable names is assigned to a generated subset of {prunner process, pipeline, task} with distinct values containing spaces, quotes, newlines, $, =, backticks, non-ASCII and the empty string; 2-5 jobs run concurrently, each with its own variables (strings - also with & < > \" + $ ; and URL-like values -, numbers, booleans, nested maps); every task runs 'vhelper dumpenv' (a real child process), 'vhelper args \"${NAME-<unset>}\"...' (interpreter expansion) and 'vhelper args {{ .var }}...' (template); oracle per name: child value = task value if defined, else pipeline value, else process value, else unset, byte for byte; TASK_NAME = task name; the rendered script shows exactly its own job's variables; a job scheduled with the reserved variable name runs nothing, ends canceled with an error and leaves the job it named unchanged; non-trivial = a name defined at >=2 levels with a shell-special value and >=2 jobs overlapping; distinct by assignment")
 	vh := helper(t)
 	rapid.Check(t, func(rt *rapid.T) {
 		c := envCase{proc: map[string]string{}, pipes: map[string]map[string]string{}, tasks: map[string]map[string]map[string]string{}}
@@ -183,6 +183,21 @@ func TestC18(t *testing.T) {
 			}
 			jobs = append(jobs, jobRec{id, pn, vars})
 		}
+		// The definitions are edited while some of these jobs still wait (concurrency 1): other values at pipeline
+		// level, a name more. The jobs were accepted before; their commands see the values of their own definition.
+		reloadedWhileWaiting := rapid.IntRange(0, 2).Draw(rt, "definitionsEditedWhileJobsWait") == 0
+		if reloadedWhileWaiting {
+			defs2 := &definition.PipelinesDef{Pipelines: definition.PipelinesMap{}}
+			for name, pd := range defs.Pipelines {
+				nd := pd
+				nd.Env = map[string]string{"VF_E1": "added-by-the-edit"}
+				for k, v := range pd.Env {
+					nd.Env[k] = v + "/edited"
+				}
+				defs2.Pipelines[name] = nd
+			}
+			w.pr.ReplaceDefinitions(defs2)
+		}
 		// a job that tries to claim the identity of another job
 		reserved := rapid.Bool().Draw(rt, "reservedJob")
 		var resID uuid.UUID
@@ -288,7 +303,7 @@ func TestC18(t *testing.T) {
 			}
 		}
 		col.Add(fmt.Sprintf("%v|%v|%v|%d", c.proc, c.pipes, c.tasks, nJobs), multiLevel && special && nJobs >= 2,
-			map[string]int{"name-at>=2-levels": btoi(multiLevel), "special-value-overridden": btoi(special), "reserved-variable-job": btoi(reserved), "pipelines>=2": btoi(nP >= 2), "scheduled-over-http": btoi(viaHTTP), "task-env-named-like-a-job-variable": btoi(clashes > 0)}, nJobs,
+			map[string]int{"name-at>=2-levels": btoi(multiLevel), "special-value-overridden": btoi(special), "reserved-variable-job": btoi(reserved), "pipelines>=2": btoi(nP >= 2), "scheduled-over-http": btoi(viaHTTP), "definitions-edited-while-jobs-wait": btoi(reloadedWhileWaiting), "task-env-named-like-a-job-variable": btoi(clashes > 0)}, nJobs,
 			map[string]interface{}{"process": c.proc, "pipelines": c.pipes, "tasks": c.tasks, "jobs": nJobs, "reserved_job": reserved})
 	})
 }
